@@ -138,6 +138,7 @@ struct Gen{
     o["b0"]=r.chance(0.5); o["dag"]=r.chance(0.5); o["order"]=r.chance(0.7); o["variant"]=(int)r.below(5); o["d"]=g[a].dim;
   }
   void cache(){
+    if(r.chance(0.35)){ Json& o=add("container"); Json sl=Json::array(); int n=r.range(1,5); for(int i=0;i<n;i++){ int s=pick(p_usable); if(s>=0) sl.push(s); } o["slots"]=sl; o["vs"]=(long long)r.below(100000); return; }
     if(r.chance(0.4)){ add("clear_cache"); return; }
     Json& o=add("burst"); o["d"]=dimension(); o["n"]=r.chance(0.7)?r.range(33,40):r.range(1,32); o["lifo"]=r.chance(0.5);
   }
